@@ -1,5 +1,6 @@
 import PrimaiteModel.Model.C13Wire
 import PrimaiteModel.Model.C13Recv
+import PrimaiteModel.Model.C13Bots
 open Primaite Primaite.Lifecycle Primaite.Registries Primaite.Recv
 
 /-! Line-protocol driver for the receive-path / payload model (C13, round 3): two nodes `A` and `B` with class data and an
@@ -23,7 +24,40 @@ def showKV (l : List (String × Nat)) : String :=
 def parseOptNat (s : String) : Option (Option Nat) := if s = "-" then some none else s.toNat?.map some
 def showOptNat : Option Nat → String | none => "-" | some n => toString n
 
-/-- `junk` | `scan` | `dns:<name>:<-|none|ip>` | `ntp:<-|t>` -/
+def parseMethod : String → Option HttpMethod
+  | "get" => some .get | "post" => some .post | "other" => some .other | _ => none
+def parsePath : String → Option PathKind
+  | "root" => some .root | "users" => some .users | "other" => some .other | _ => none
+
+/-- `-` | `0` | `1` -/
+def parseOptBool (s : String) : Option (Option Bool) := if s = "-" then some none else (parseBool s).map some
+def showOptBool : Option Bool → String | none => "-" | some b => showBool b
+
+/-- status codes: `-` = no entry, `n` = None -/
+def showCode : Option Nat → String | none => "n" | some c => toString c
+def parseCode (s : String) : Option (Option Nat) := if s = "n" then some none else s.toNat?.map some
+
+def parseCodes (s : String) : Option (List (Option Nat)) := if s = "-" then some [] else (s.splitOn ",").mapM parseCode
+def showCodes (l : List (Option Nat)) : String := if l.isEmpty then "-" else ",".intercalate (l.map showCode)
+
+/-- browser history `id=code|id=n|id=U,…` (`U` = SERVER_UNREACHABLE) -/
+def parseHist (s : String) : Option (List (Nat × Option (Option Nat))) :=
+  if s = "-" then some [] else
+  (s.splitOn ",").mapM fun kv =>
+    match kv.splitOn "=" with
+    | [k, "U"] => k.toNat?.map fun k => (k, none)
+    | [k, v] => match k.toNat?, parseCode v with
+      | some k, some c => some (k, some c)
+      | _, _ => none
+    | _ => none
+def showHist (l : List (Nat × Option (Option Nat))) : String :=
+  if l.isEmpty then "-" else ",".intercalate (l.map fun (k, o) => s!"{k}=" ++ (match o with | none => "U" | some c => showCode c))
+
+/-- `latest_response`: `-` no response object, else its status -/
+def parseLatest (s : String) : Option (Option (Option Nat)) := if s = "-" then some none else (parseCode s).map some
+def showLatest : Option (Option Nat) → String | none => "-" | some c => showCode c
+
+/-- `junk` | `scan` | `http:<get|post|other>:<root|users|other>:<urlId>` | `resp:<-|code>` | `dns:<name>:<-|none|ip>` | `ntp:<-|t>` -/
 def parsePayload (s : String) : Option Payload :=
   match s.splitOn ":" with
   | ["junk"] => some .junk
@@ -33,6 +67,11 @@ def parsePayload (s : String) : Option Payload :=
   | ["dns", name, ip] => ip.toNat?.map fun i => .dns name (some (some i))
   | ["ntp", "-"] => some (.ntp none)
   | ["ntp", t] => t.toNat?.map fun i => .ntp (some i)
+  | ["http", m, pa, i] =>
+    match parseMethod m, parsePath pa, i.toNat? with
+    | some m, some pa, some i => some (.httpReq m pa i)
+    | _, _, _ => none
+  | ["resp", c] => c.toNat?.map fun c => .httpResp c
   | _ => none
 
 def showData : Data → String
@@ -40,6 +79,8 @@ def showData : Data → String
   | .dnsClient cache srv => s!"dnsclient[{showOptNat srv};{showKV cache}]"
   | .ntpServer => "ntpserver"
   | .ntpClient t srv => s!"ntpclient[{showOptNat srv};{showOptNat t}]"
+  | .webServer codes conn => s!"webserver[{showCodes (codes.map some)};{showOptBool conn}]"
+  | .webBrowser latest hist tgt => s!"webbrowser[{showLatest latest};{showHist hist};{showOptNat tgt}]"
 
 def ddump (nn : NetNode) : String :=
   let l := nn.data.toArray.qsort (fun a b => a.1 < b.1) |>.toList
@@ -90,6 +131,18 @@ def nodeStep (w : World) (side : Side) (ws : List String) : World × String :=
     match u.toNat?, parseOptNat srv, parseOptNat t with
     | some u, some srv, some t => (w.set side (nn.setData u (.ntpClient t srv)), "ok")
     | _, _, _ => (w, "bad-op")
+  | ["cfgdata", u, "webserver", codes, conn] =>
+    match u.toNat?, parseCodes codes, parseOptBool conn with
+    | some u, some c, some cn => (w.set side (nn.setData u (.webServer (c.filterMap id) cn)), "ok")
+    | _, _, _ => (w, "bad-op")
+  | ["dboffer", o] =>
+    match parseOptBool o with
+    | some o => (w.set side { nn with dbOffer := o }, "ok")
+    | none => (w, "bad-op")
+  | ["cfgdata", u, "webbrowser", latest, hist, tgt] =>
+    match u.toNat?, parseLatest latest, parseHist hist, parseOptNat tgt with
+    | some u, some l, some h, some t => (w.set side (nn.setData u (.webBrowser l h t)), "ok")
+    | _, _, _, _ => (w, "bad-op")
   | ["register", u, name, ip] =>
     match u.toNat?, ip.toNat? with
     | some u, some ip => (w.set side (nn.dnsRegister u name ip), "ok")
@@ -148,6 +201,22 @@ def wstep (w : World) (ws : List String) : World × String :=
     match parseSide side, u.toNat? with
     | some sd, some u => let (w', b) := w.dnsQuery sd u name; (w', answer w w' s!"ret {showBool b}")
     | _, _ => (w, "bad-op")
+  | ["browse", side, u, "-"] =>
+    match parseSide side, u.toNat? with
+    | some sd, some u =>
+      let (w', o) := w.browse sd u none
+      (w', answer w w' (match o with | .ret b => s!"ret {showBool b}" | .raised => "raised"))
+    | _, _ => (w, "bad-op")
+  | ["browse", side, u, id, host, port, path] =>
+    let h : Option World.Host := match host.splitOn ":" with
+      | ["name", s] => some (.name s)
+      | ["addr", a, t] => a.toNat?.map fun a => .addr a t
+      | _ => none
+    match parseSide side, u.toNat?, id.toNat?, h, parseOptNat port, parsePath path with
+    | some sd, some u, some id, some h, some port, some pa =>
+      let (w', o) := w.browse sd u (some { id := id, host := h, port := port, path := pa })
+      (w', answer w w' (match o with | .ret b => s!"ret {showBool b}" | .raised => "raised"))
+    | _, _, _, _, _, _ => (w, "bad-op")
   | ["ntpreq", side, u] =>
     match parseSide side, u.toNat? with
     | some sd, some u => let w' := w.ntpRequest sd u; (w', answer w w' "ok")
@@ -169,8 +238,39 @@ def wstep (w : World) (ws : List String) : World × String :=
     | none => (w, "bad-op")
   | [] => (w, "bad-op")
 
+open Primaite.Bots in
+/-- the attack loops of the red applications (stateless: the rig passes the instance's state before the call) -/
+def botStep (ws : List String) : String :=
+  let dosStage : String → Option DosStage
+    | "0" => some .notStarted | "1" => some .portScan | "2" => some .attacking | "3" => some .completed | _ => none
+  let dmStage : String → Option DmStage
+    | "0" => some .notStarted | "1" => some .logon | "2" => some .portScan | "3" => some .attacking | "4" => some .succeeded
+    | "5" => some .failed | _ => none
+  let bits (s : String) : List Bool := if s = "-" then [] else s.toList.map (· == '1')
+  match ws with
+  | ["dos", can, cfg, rep, trial, sessions, st] =>
+    match parseBool can, parseBool cfg, parseBool rep, parseBool trial, sessions.toNat?, dosStage st with
+    | some can, some cfg, some rep, some trial, some n, some st =>
+      let o := dosLoop can cfg rep trial n st
+      s!"stage={o.stage.value} connects={o.connects} trials={o.trialsUsed} ret={showBool o.ret}"
+    | _, _, _, _, _, _ => "bad-op"
+  | ["dm", can, cfg, rep, hc, offer, trials, conn, st] =>
+    match parseBool can, parseBool cfg, parseBool rep, parseBool hc, parseOptBool offer, parseOptBool conn, dmStage st with
+    | some can, some cfg, some rep, some hc, some offer, some conn, some st =>
+      let o := dmLoop can cfg rep { hasClient := hc, offer := offer } (bits trials) conn st
+      s!"stage={o.stage.value} conn={showOptBool o.conn} asked={o.asked} queries={o.queries} trials={o.trialsUsed} ret={showBool o.ret}"
+    | _, _, _, _, _, _, _ => "bad-op"
+  | ["rw", can, cfg, hc, offer, conn] =>
+    match parseBool can, parseBool cfg, parseBool hc, parseOptBool offer, parseOptBool conn with
+    | some can, some cfg, some hc, some offer, some conn =>
+      let o := rwLoop can cfg { hasClient := hc, offer := offer } conn
+      s!"conn={showOptBool o.conn} asked={o.asked} queries={o.queries} ret={showBool o.ret}"
+    | _, _, _, _, _ => "bad-op"
+  | _ => "bad-op"
+
 def step (st : St) (ws : List String) : St × String :=
   match ws with
+  | "bot" :: rest => (st, botStep rest)
   | "conn" :: rest => let (c', o) := connStep st.c rest; ({ st with c := c' }, o)
   | ws => let (w', o) := wstep st.w ws; ({ st with w := w' }, o)
 
